@@ -6,6 +6,7 @@
 
 mod alloc;
 mod bodyx;
+mod fidelity;
 mod gen;
 mod httpref;
 mod mpref;
@@ -287,6 +288,7 @@ fn main() {
         Some("run") => cmd_run(&args[2..]),
         Some("replay") => cmd_replay(&args[2..]),
         Some("selftest-determinism") => cmd_determinism(&args[2..]),
+        Some("selftest-fidelity") => fidelity::run(),
         Some("mkreplay") => {
             // mkreplay <ID> <seed> <index> <class> [thorough]
             let id = args.get(2).cloned().unwrap_or_default();
